@@ -186,7 +186,7 @@ def _mutate(ctx, d, pgpy):
         for hdr in ('new', 'old'):
             raw = (wire.new_hdr(13, len(rawuid)) if hdr == 'new' else wire.old_hdr(13, len(rawuid))) + rawuid
             p = Packet(bytearray(raw))
-            for newtext in ('edited', 'édité ' * 40, 'z' * 300):
+            for newtext in ('edited', 'édité ' * 40, 'z' * 300, 'b' * 255, 'b' * 256, 'b' * 257, 'c' * 65535, 'c' * 65536, 'c' * 65537, 'd' * 191, 'd' * 192, 'd' * 8383, 'd' * 8384):
                 p.uid = newtext
                 p.update_hlen()
                 ctx.count('mutated_then_serialised')
@@ -213,11 +213,14 @@ def _mutate(ctx, d, pgpy):
     roundtrip_own(ctx, pgpy, bytes(sp.__bytearray__()), {'mutated': 'signature + hashed subpacket'})
     # key: protected in place, copy of a parsed Latin-1 user id
     import copy
-    pk = pgpy.PGPKey.from_blob(pool.secret_packet('ed25519_0', hdr='old'))[0]
-    pk.add_uid(pgpy.PGPUID.new('m'))
-    pk.protect('pw', pgpy.constants.SymmetricKeyAlgorithm.AES256, pgpy.constants.HashAlgorithm.SHA256)
-    ctx.count('mutated_then_serialised')
-    own_blob(ctx, pgpy, bytes(pk), {'mutated': 'old-format key protected in place'})
+    # secret keys that arrived with old-format headers, protected in place with every cipher block size: the packet grows by
+    # S2K specifier + IV + SHA-1, possibly exactly onto a length-width boundary
+    for kname in pool.SIGNERS + ['ecdsa_p521_1', 'ecdsa_p521_2', 'cv25519_0', 'ecdh_p521_0']:
+        for calg in ('AES256', 'CAST5', 'TripleDES', 'Camellia192'):
+            pk = pgpy.PGPKey.from_blob(pool.secret_packet(kname, hdr='old'))[0]
+            pk.protect('pw', getattr(pgpy.constants.SymmetricKeyAlgorithm, calg), pgpy.constants.HashAlgorithm.SHA1)
+            ctx.count('mutated_then_serialised')
+            own_blob(ctx, pgpy, bytes(pk), {'mutated': 'old-format key protected in place', 'key': kname, 'cipher': calg, 'len': len(bytes(pk))})
     lat = Packet(bytearray(wire.new_hdr(13, 9) + b'lat\xfc\xe9 uid'))
     cp = copy.copy(lat)
     ctx.count('mutated_then_serialised')
